@@ -103,6 +103,14 @@ func (x *X) Set(k, v string) {
 	}
 }
 
+// AddFact records a sticky fact established by the rule (e.g. a field just
+// assigned a freshly allocated object is non-nil).
+func (x *X) AddFact(a Atom) {
+	a.Sticky = true
+	a.Frame = x.Fr.ID
+	x.St.Facts.Add(a)
+}
+
 // Passed reports whether a rule-tracked branch with this (plain) atom text was
 // taken earlier on the path, regardless of later writes to its operands.
 func (x *X) Passed(text string) bool { return x.St.Hist[text] }
@@ -161,6 +169,9 @@ type Hooks struct {
 	// Instr is called for every non-phi instruction before generic handling
 	// (in inlined frames too; use x.Top() to distinguish).
 	Instr func(x *X)
+	// After is called after the generic handling (fact invalidation) of an
+	// instruction of the analysed function; facts added here survive it.
+	After func(x *X)
 	// Track decides whether a branch atom is recorded as a fact (in addition
 	// to the automatic policy: atoms tested more than once in the function).
 	Track func(x *X, a Atom) bool
@@ -742,6 +753,9 @@ func (e *Explorer) step(fr *Frame, s *State, ins ssa.Instruction) []*State {
 				return nil
 			}
 		}
+		if e.H.After != nil {
+			e.H.After(x)
+		}
 		return []*State{s}
 	}
 	if v, ok := ins.(ssa.Value); ok {
@@ -780,6 +794,9 @@ func (e *Explorer) step(fr *Frame, s *State, ins ssa.Instruction) []*State {
 		return []*State{s}
 	}
 	e.invalidate(fr, s, ins)
+	if e.H.After != nil {
+		e.H.After(x)
+	}
 	return []*State{s}
 }
 
